@@ -258,6 +258,35 @@ func (w vaSpec) arp(intf string, mac net.HardwareAddr, op int, dst net.HardwareA
 	return w.answer(target, intf)
 }
 
+// arpReasons: EVERY reason that applies to the packet (the property does not fix which one the
+// responder reports when several do: the code may test them in any order); empty = answered
+func (w vaSpec) arpReasons(intf string, mac net.HardwareAddr, op int, dst net.HardwareAddr, target string) []int {
+	var rs []int
+	if op != 1 {
+		rs = append(rs, int(dropReasonARPReply))
+	}
+	if dst.String() != ethernet.Broadcast.String() && dst.String() != mac.String() {
+		rs = append(rs, int(dropReasonEthernetDestination))
+	}
+	if d := w.answer(target, intf); d != 0 {
+		rs = append(rs, d)
+	}
+	return rs
+}
+
+// vaAdmissible: got is "answered" (0) exactly when no reason applies, otherwise one of the applicable reasons
+func vaAdmissible(rs []int, got int) bool {
+	if len(rs) == 0 {
+		return got == 0
+	}
+	for _, r := range rs {
+		if r == got {
+			return true
+		}
+	}
+	return false
+}
+
 func vaGenAdv(r *rand.Rand, ip string) vaAdv {
 	a := vaAdv{IP: ip, Form: r.Intn(2)}
 	switch r.Intn(6) {
@@ -801,9 +830,12 @@ func vaRunHistory(out *vOut, r *rand.Rand, id, steps int, replay *vaHist) {
 							sut.pcs[resp].in <- vaFrame(opn, dst, tha, tgt)
 							got := sut.a.VerifARPProcess(resp)
 							_, replies := sut.pcs[resp].take()
-							want := w.arp(vaIfs[resp], vaMACs[resp], opn, dst, tgt)
+							reasons := w.arpReasons(vaIfs[resp], vaMACs[resp], opn, dst, tgt)
 							out.Stat("arp_packets", 1)
-							if want == 0 {
+							if len(reasons) >= 2 {
+								out.Stat("arp_packets_with_several_applicable_reasons", 1)
+							}
+							if len(reasons) == 0 {
 								out.Stat("arp_replies", 1)
 							}
 							if (got == 0) != (replies == 1) || replies > 1 {
@@ -813,8 +845,8 @@ func vaRunHistory(out *vOut, r *rand.Rand, id, steps int, replay *vaHist) {
 								fail("l2-arp-reply-nonrequest", fmt.Sprintf("ARP responder on %s replied to a packet with operation %d (not a request) for %s", vaIfs[resp], opn, tgt))
 							} else if got == 0 && dst.String() != ethernet.Broadcast.String() && dst.String() != vaMACs[resp].String() {
 								fail("l2-arp-reply-wrong-destination", fmt.Sprintf("ARP responder on %s (MAC %s) replied to a request whose Ethernet destination is %s (neither broadcast nor its own address), ARP target hardware address %s", vaIfs[resp], vaMACs[resp], dst, tha))
-							} else if got != want {
-								fail("l2-arp-decision", fmt.Sprintf("ARP responder on %s (MAC %s): op %d Ethernet destination %s ARP target hardware address %s target %s: drop reason %d, want %d", vaIfs[resp], vaMACs[resp], opn, dst, tha, tgt, got, want))
+							} else if !vaAdmissible(reasons, got) {
+								fail("l2-arp-decision", fmt.Sprintf("ARP responder on %s (MAC %s): op %d Ethernet destination %s ARP target hardware address %s target %s: drop reason %d (0 = answered), applicable reasons %v (none = must be answered; which of several is reported is free)", vaIfs[resp], vaMACs[resp], opn, dst, tha, tgt, got, reasons))
 							}
 							if ship {
 								obs = append(obs, cCtor("OArp", cNi(resp), vaMacN(vaMACs[resp]), cNi(opn), vaMacN(dst), vaMacN(tha), vaCoqIP(tgt), vaDrops[got], cBool(replies == 1)))
@@ -1018,9 +1050,12 @@ func vaRunConc(out *vOut, r *rand.Rand, id int) {
 			ok := false
 			for k := q.Lo; k <= q.Hi && !ok; k++ {
 				wantD, wantS := q.expect(specs[k])
-				if q.Kind == "grat" {
+				switch q.Kind {
+				case "grat":
 					ok = fmt.Sprint(wantS) == fmt.Sprint(q.Sent)
-				} else {
+				case "arp": // any applicable drop label
+					ok = vaAdmissible(specs[k].arpReasons(vaIfs[q.Resp], vaMACs[q.Resp], q.Op, q.dst, q.Target), q.Got)
+				default:
 					ok = wantD == q.Got
 				}
 			}
